@@ -214,6 +214,10 @@ Section Refine.
     | _, _ => False
     end.
 
+  Lemma reach_RegInv h : adm_run init h = true ->
+    RegInv (live (fst (run init h))) (g (fst (run init h))) /\ WorldOk (live (fst (run init h))).
+  Proof. intros H. split; apply (reach_Inv children fuel h H). Qed.
+
   Lemma Sim_init : Sim init a_init.
   Proof. constructor; simpl; auto. tauto. Qed.
 
